@@ -301,6 +301,16 @@ class Run:
                 self.proof_log = "foreign axioms: " + ", ".join(foreign); return False
             self.cov["discharged"] += len(thms)
         self.proof_log = out[-3000:]
+        if ok and self.tier == "thorough" and "coqchk" not in self.cov:
+            # independent re-check of the compiled theorems and everything they depend on; lists every axiom in the closure
+            rc, cout = sh(["coqchk", "-silent", "-o", "-Q", COQ, "TT", f"TT.Properties.{self.prop}"], 3000, cwd=COQ)
+            m = re.search(r"\* Axioms:(.*?)\n\s*\n\* Constants/Inductives relying on type-in-type", cout, re.S)
+            axioms = " ".join(m.group(1).split()) if m else "?"
+            self.cov["coqchk"] = dict(exit=rc, axioms=axioms, tail=cout[-600:] if rc else "")
+            self.cov["obligations"] += 1
+            if rc == 0: self.cov["discharged"] += 1
+            else:
+                self.proof_log = "coqchk failed: " + cout[-800:]; return False
         return ok
 
     def witnesses(self):
